@@ -168,7 +168,18 @@ func fromTdxAttestationProto(at *tpb.QuoteV4) string {
 
 // Attestation will try to deserialize a given attestation in any of the supported formats and
 // return it packaged in the most general format.
-func Attestation(quote []byte) (*tpmpb.Attestation, error) {
+func Attestation(quote []byte) (result *tpmpb.Attestation, err error) {
+	// The raw-format decoders of the attestation libraries are not total on arbitrary bytes; an
+	// input that makes one of them panic is just not in a known format.
+	defer func() {
+		if r := recover(); r != nil {
+			result, err = nil, fmt.Errorf("%w: %v", ErrUnknownFormat, r)
+		}
+	}()
+	return attestation(quote)
+}
+
+func attestation(quote []byte) (*tpmpb.Attestation, error) {
 	if len(quote) == 0 {
 		return nil, ErrQuoteNil
 	}
